@@ -250,3 +250,18 @@ Theorem C15_rfc_unlock_lock :
 Proof. exact (rfc_unlock_lock). Qed.
 Print Assumptions C15_rfc_unlock_lock.
 
+
+(* the keyring constants the translator extracted from the CURRENT sources are the documented ones and agree with the
+   file-encryption side (same scrypt parameters): re-proved against the regenerated gen/Extracted.v on every run *)
+From Kestrel.gen Require Import Extracted.
+Theorem C15_layout_constants :
+  x_kr_private_key_version = [101; 103; 107; 48]%N /\
+  x_kr_scrypt_n = 32768%N /\ x_kr_scrypt_r = 8%N /\ x_kr_scrypt_p = 1%N /\
+  x_kr_scrypt_n = x_lib_scrypt_n /\ x_kr_scrypt_r = x_lib_scrypt_r /\ x_kr_scrypt_p = x_lib_scrypt_p /\
+  x_kr_lock_scrypt_args_const = 1%N /\ x_kr_unlock_scrypt_args_const = 1%N /\
+  x_kr_lock_scrypt_len = 32%N /\ x_kr_unlock_scrypt_len = 32%N /\
+  x_kr_lock_nonce_len = 12%N /\ x_kr_unlock_nonce_len = 12%N /\
+  x_kr_private_key_ct_len = 84%N /\ x_kr_public_key_len = 32%N /\ x_kr_encoded_pk_len = 36%N /\
+  x_kr_max_name_size = 128%N /\ x_noise_set_nonce_assert_max = 1%N.
+Proof. repeat split; reflexivity. Qed.
+Print Assumptions C15_layout_constants.
